@@ -337,6 +337,8 @@ class Scenario:
         cfg = self.ir.cfg
         self.ret_proxies = []
         for (src_bid, kind, dst, cond, direct) in self.model.block_edges():
+            if kind == "return" and src_bid in spec.get("ret_override", {}) and dst not in spec["ret_override"][src_bid]:
+                continue  # a path-sensitive recovery: this ret is known to return to some of the call sites only
             s = self.blocks[src_bid]
             if dst is None and kind == "return" and spec.get("shared_ret_proxy"):
                 # one "unknown callers" proxy shared by every function that returns to unknown places
